@@ -943,3 +943,13 @@ V("twin: the transversal scaled by two", "C11", OPS, _TRANSV,
 V("the shortcut for equal arguments only after the pencil is reduced", "C11", OPS, "    if a == b:\n        return np.ones(a.shape[: a.free_indices])\n\n    if (\n", "    if (\n", "E19.cr", "crossratio",
   extra=[(OPS, "    if a.dim > 2 or (from_point is None and a.dim == 2):\n        if not np.all(is_collinear(a, b, c, d)):",
           "    if a == b:\n        return np.ones(a.shape[: a.free_indices])\n\n    if a.dim > 2 or (from_point is None and a.dim == 2):\n        if not np.all(is_collinear(a, b, c, d)):")])
+
+
+# ------------------------------------------------------------------------------------------------ buffer typed after the raw representative (E6.K7w)
+V("Sphere matrix typed after the raw centre", "C03", CURVE, "m = np.eye(center.shape[0], dtype=np.promote_types(c.dtype, type(radius)))",
+  "m = np.eye(center.shape[0], dtype=np.promote_types(center.dtype, type(radius)))", "E6.K7w", "Sphere.__init__", quick=True)
+V("twin: Sphere matrix typed after the normalised centre, written out", "C03", CURVE, "m = np.eye(center.shape[0], dtype=np.promote_types(c.dtype, type(radius)))",
+  "m = np.eye(center.shape[0], dtype=np.promote_types(center.normalized_array.dtype, type(radius)))", "silent")
+V("twin: Sphere matrix as a floating buffer", "C03", CURVE, "m = np.eye(center.shape[0], dtype=np.promote_types(c.dtype, type(radius)))",
+  "m = np.eye(center.shape[0], dtype=np.promote_types(np.float64, center.dtype))", "silent")
+V("Ellipse matrix typed after the raw centre", "C03", CURVE, "        m = np.eye(3, dtype=d.dtype)", "        m = np.eye(3, dtype=np.result_type(center.array, r))", "E6.K7w", "Ellipse.__init__")
